@@ -1,0 +1,32 @@
+//go:build verif
+
+package worker
+
+// Verification hook (build tag "verif" only): build a WorkerToken client that talks to
+// an already-listening address instead of spawning a worker subprocess.
+
+import (
+	"context"
+
+	"github.com/sassoftware/relic/v8/config"
+	"github.com/sassoftware/relic/v8/internal/activation/activatecmd"
+)
+
+func NewForVerif(cfg *config.Config, tokenName, addr, cookie string) (*WorkerToken, error) {
+	tconf, err := cfg.GetToken(tokenName)
+	if err != nil {
+		return nil, err
+	}
+	ctx, cancel := context.WithCancel(context.Background())
+	return &WorkerToken{
+		config:      cfg,
+		tconf:       tconf,
+		cookie:      cookie,
+		addr:        addr,
+		notify:      new(activatecmd.Listener),
+		ctx:         ctx,
+		cancel:      cancel,
+		procs:       make(map[int]struct{}),
+		procsExited: make(chan int, 10),
+	}, nil
+}
